@@ -25,6 +25,7 @@
 (*          ch (cell class or ""), obs                                       *)
 (*   "acc"  m (accessor), a (int arguments), cur, ret (projected value), obs *)
 (*   "feed" syms (symbols of AnsiFsm fed by one write), obs                  *)
+(*   "part" syms (leading symbols of a long write; no observation)           *)
 (* obs: raised ("" or exception class), nrows, cellsok, rows (<<index, row>>  *)
 (*      pairs: rows that differ from the previous observation), cur, saved,  *)
 (*      region, fsm, stack                                                   *)
@@ -146,7 +147,7 @@ TAcc ==
 RECURSIVE FeedAll(_, _)
 FeedAll(P, syms) ==
   IF syms = <<>> THEN P
-  ELSE FeedAll(UNION {{[scr |-> n[1], fsm |-> n[2], mem |-> n[3]] : n \in FeedSet(a.scr, a.fsm, a.mem, Head(syms))} : a \in P},
+  ELSE FeedAll(TLCEval(UNION {{[scr |-> n[1], fsm |-> n[2], mem |-> n[3]] : n \in FeedSet(a.scr, a.fsm, a.mem, Head(syms))} : a \in P}),
                Tail(syms))
 Cap(n) == Min(n, Huge)
 ObsMem(o) == [i \in 1..Len(o.stack) |-> Cap(o.stack[i])]
@@ -172,6 +173,13 @@ TFeed ==
         /\ obsGrid' = IF v = "ok" /\ ObsShapeOK(o) THEN ObsGrid(o) ELSE obsGrid
   /\ l' = l + 1 /\ UNCHANGED tid /\ Idle
 
+\* a long write() is logged as several "part" events (symbols only) followed by the "feed" event that
+\* carries the observation: the reference advances, nothing can be compared in between
+TPart ==
+  /\ Has("part")
+  /\ poss' = IF diverged THEN poss ELSE FeedAll(poss, E.syms)
+  /\ l' = l + 1 /\ UNCHANGED <<tid, verdict, obsGrid, diverged>> /\ Idle
+
 TNextTrace ==
   /\ (l > Len(Ev) \/ (verdict # "ok" /\ ~diverged))
   /\ PrintT(<<"VERDICT", tid, Traces[tid].id, verdict, l>>)
@@ -179,7 +187,7 @@ TNextTrace ==
   /\ tid' = tid + 1 /\ l' = 1 /\ verdict' = "ok" /\ poss' = {A0} /\ obsGrid' = BlankRows /\ diverged' = FALSE
   /\ Idle
 
-TNext == TOp \/ TAcc \/ TFeed \/ TNextTrace
+TNext == TOp \/ TAcc \/ TFeed \/ TPart \/ TNextTrace
 TraceSpec == TInit /\ [][TNext]_tvars
 
 \* safety net: every reference state the inputs allow satisfies the invariants of the models
